@@ -301,6 +301,15 @@ func c13r5(rc *core.RC) {
 					if len(s.Lhs) != 1 {
 						return true
 					}
+					// *ctx.Option = encoder.Option{} resets the flags together with every other option
+					if st, ok := core.Unparen(s.Lhs[0]).(*ast.StarExpr); ok && len(s.Rhs) == 1 {
+						if cl, ok := core.Unparen(s.Rhs[0]).(*ast.CompositeLit); ok && len(cl.Elts) == 0 {
+							if t := types.Unalias(dinfo.Types[st].Type); strings.HasSuffix(t.String(), "internal/encoder.Option") {
+								writes = append(writes, write{pos: s.Pos(), tok: token.ASSIGN, flags: map[string]bool{}, zero: true})
+								return true
+							}
+						}
+					}
 					if f := core.FieldOf(dinfo, s.Lhs[0]); f == nil || f.Name() != "Flag" {
 						return true
 					}
